@@ -760,3 +760,207 @@ Proof.
       * destruct Hcov as [E|E]; [left; eapply SetEq_trans; [exact E0|now apply SetEq_sym]|right].
         eapply SetEq_trans; [|exact E]. intros x. rewrite !in_app_iff, (E0 x). tauto.
 Qed.
+
+(* ------------------------------------------------------------------------------------------------ *)
+(* dichotomous Euclidean *)
+Local Open Scope Q_scope.
+
+(* every voter has a position and a radius (the pair v), every alternative a position p a, and the voter
+   approves exactly the alternatives within distance <= radius of its position *)
+Definition DE_embed (alts : list N) (ballots : list (list N)) (vpr : list (Q * Q)) (p : N -> Q) : Prop :=
+  Forall2 (fun b v => forall a, In a alts -> (Qabs (p a - fst v) <= snd v <-> In a b)) ballots vpr.
+Definition DE alts ballots : Prop := exists vpr p, DE_embed alts ballots vpr p.
+
+Definition pos_of (ap : list (N * Q)) (a : N) : Q := match lookupQ a ap with Some q => q | None => 0 end.
+
+Lemma Forall_combine_Forall2 {X Y} (R : X -> Y -> Prop) l1 l2 :
+  length l1 = length l2 -> (Forall (fun xy => R (fst xy) (snd xy)) (combine l1 l2) <-> Forall2 R l1 l2).
+Proof.
+  revert l2. induction l1 as [|x t IH]; intros [|y u] Hlen; simpl in *; try discriminate.
+  - split; constructor.
+  - injection Hlen as Hlen. split; intros H; inversion H; subst; constructor; auto; now apply (IH u Hlen).
+Qed.
+
+Lemma Forall2_len {X Y} (R : X -> Y -> Prop) l1 l2 : Forall2 R l1 l2 -> length l1 = length l2.
+Proof. induction 1; simpl; congruence. Qed.
+
+Lemma within_iff p x r : within p x r = true <-> Qabs (p - x) <= r.
+Proof. unfold within. apply Qle_bool_iff. Qed.
+
+(* Prop reading of the Euclidean checker *)
+Theorem de_check_correct alts ballots vpr ap :
+  de_check alts ballots vpr ap = true <->
+  (forall a, In a alts -> ballots <> [] -> lookupQ a ap <> None) /\
+  DE_embed alts ballots vpr (pos_of ap).
+Proof.
+  unfold de_check, DE_embed. rewrite andb_true_iff, Nat.eqb_eq, forallb_forall. split.
+  - intros [Hlen H]. split.
+    + intros a Ha Hne. destruct ballots as [|b bs]; [congruence|]. destruct vpr as [|v vs]; [discriminate|].
+      specialize (H (b, v) (or_introl eq_refl)). rewrite forallb_forall in H. specialize (H a Ha).
+      destruct (lookupQ a ap); [discriminate|discriminate H].
+    + apply Forall_combine_Forall2; [now symmetry|]. apply Forall_forall. intros [b v] Hbv a Ha.
+      specialize (H (b, v) Hbv). rewrite forallb_forall in H. specialize (H a Ha). cbn [fst snd] in *.
+      unfold pos_of. destruct (lookupQ a ap) as [q|]; [|discriminate].
+      apply eqb_prop in H. rewrite <- within_iff, H. apply mem_iff.
+  - intros [Hlk H]. assert (Hlen := Forall2_len _ _ _ H). split; [now symmetry|].
+    apply Forall_combine_Forall2 in H; [|exact Hlen]. rewrite Forall_forall in H.
+    intros [b v] Hbv. apply forallb_forall. intros a Ha. specialize (H (b, v) Hbv a Ha). cbn [fst snd] in *.
+    assert (Hne : ballots <> []) by (intros ->; destruct Hbv).
+    specialize (Hlk a Ha Hne). unfold pos_of in H. destruct (lookupQ a ap) as [q|]; [|congruence].
+    rewrite <- within_iff in H. rewrite <- mem_iff in H.
+    destruct (within q (fst v) (snd v)), (mem a b); try reflexivity; destruct H; intuition congruence.
+Qed.
+
+Corollary de_check_sound alts ballots vpr ap : de_check alts ballots vpr ap = true -> DE alts ballots.
+Proof. intros H. apply de_check_correct in H. exists vpr, (pos_of ap). apply H. Qed.
+
+(* ---- the construction of is_dichotomous_euclidean ---- *)
+Local Open Scope nat_scope.
+
+Lemma index_of_lt a l : In a l -> index_of a l < length l.
+Proof.
+  induction l as [|y t IH]; simpl; [tauto|]. intros H. destruct (N.eqb_spec a y) as [->|Hne]; [lia|].
+  destruct H as [H|H]; [congruence|]. specialize (IH H). lia.
+Qed.
+
+Lemma nth_index_of a l d : In a l -> nth (index_of a l) l d = a.
+Proof.
+  induction l as [|y t IH]; simpl; [tauto|]. intros H. destruct (N.eqb_spec a y) as [->|Hne]; [reflexivity|].
+  destruct H as [H|H]; [congruence|]. now apply IH.
+Qed.
+
+Lemma index_of_inj a b l : In a l -> In b l -> index_of a l = index_of b l -> a = b.
+Proof.
+  intros Ha Hb E. rewrite <- (nth_index_of a l 0%N Ha), <- (nth_index_of b l 0%N Hb). now rewrite E.
+Qed.
+
+Lemma zmin_list_spec ps : forall p,
+  In (zmin_list p ps) (p :: ps) /\ (forall q, In q (p :: ps) -> (zmin_list p ps <= q)%Z).
+Proof.
+  unfold zmin_list. induction ps as [|x t IH]; intros p; simpl.
+  - split; [now left|]. intros q [<-|[]]. lia.
+  - destruct (IH (Z.min p x)) as [Hin Hle]. split.
+    + destruct Hin as [E|Hin]; [|now right; right]. rewrite <- E.
+      destruct (Z.min_spec p x) as [[_ ->]|[_ ->]]; [now left|right; now left].
+    + intros q [<-|[<-|Hq]].
+      * specialize (Hle (Z.min p x) (or_introl eq_refl)). lia.
+      * specialize (Hle (Z.min p x) (or_introl eq_refl)). lia.
+      * apply Hle. now right.
+Qed.
+
+Lemma zmax_list_spec ps : forall p,
+  In (zmax_list p ps) (p :: ps) /\ (forall q, In q (p :: ps) -> (q <= zmax_list p ps)%Z).
+Proof.
+  unfold zmax_list. induction ps as [|x t IH]; intros p; simpl.
+  - split; [now left|]. intros q [<-|[]]. lia.
+  - destruct (IH (Z.max p x)) as [Hin Hle]. split.
+    + destruct Hin as [E|Hin]; [|now right; right]. rewrite <- E.
+      destruct (Z.max_spec p x) as [[_ ->]|[_ ->]]; [right; now left|now left].
+    + intros q [<-|[<-|Hq]].
+      * specialize (Hle (Z.max p x) (or_introl eq_refl)). lia.
+      * specialize (Hle (Z.max p x) (or_introl eq_refl)). lia.
+      * apply Hle. now right.
+Qed.
+
+Lemma within_half p l r : within (inject_Z p) (Qmake (l + r) 2) (Qmake (r - l) 2) = true <-> (l <= p <= r)%Z.
+Proof.
+  unfold within. rewrite Qle_bool_iff, Qabs_Qle_condition.
+  unfold Qle, Qopp, Qminus, Qplus, Qopp, inject_Z. simpl. lia.
+Qed.
+
+Lemma within_zero p q : within (inject_Z p) (inject_Z q) (inject_Z 0) = true <-> p = q.
+Proof.
+  unfold within. rewrite Qle_bool_iff, Qabs_Qle_condition.
+  unfold Qle, Qopp, Qminus, Qplus, Qopp, inject_Z. simpl. lia.
+Qed.
+
+(* between the leftmost and the rightmost approved alternative everything is approved *)
+Lemma span_iff order b a0 rest a :
+  b = a0 :: rest -> incl b order -> In a order ->
+  contig01 (map (fun x => mem x b) order) = true ->
+  ((zmin_list (alt_pos order a0) (map (alt_pos order) rest) <= alt_pos order a
+    <= zmax_list (alt_pos order a0) (map (alt_pos order) rest))%Z <-> In a b).
+Proof.
+  intros Hb Hincl Ha Hc.
+  destruct (zmin_list_spec (map (alt_pos order) rest) (alt_pos order a0)) as [Hlin Hlle].
+  destruct (zmax_list_spec (map (alt_pos order) rest) (alt_pos order a0)) as [Hrin Hrle].
+  change (alt_pos order a0 :: map (alt_pos order) rest) with (map (alt_pos order) (a0 :: rest)) in *.
+  rewrite <- Hb in *. split.
+  - intros [Hl Hr].
+    apply in_map_iff in Hlin. destruct Hlin as (al & El & Hal).
+    apply in_map_iff in Hrin. destruct Hrin as (ar & Er & Har).
+    rewrite <- El in Hl. rewrite <- Er in Hr. unfold alt_pos in Hl, Hr.
+    assert (Hal' := Hincl _ Hal). assert (Har' := Hincl _ Har).
+    destruct (Nat.eq_dec (index_of al order) (index_of a order)) as [E|NE1].
+    { apply index_of_inj in E; auto. now subst. }
+    destruct (Nat.eq_dec (index_of a order) (index_of ar order)) as [E|NE2].
+    { apply index_of_inj in E; auto. now subst. }
+    rewrite (contig01_map_between (fun x => mem x b) (fun x => In x b) (fun x => mem_iff x b)) in Hc.
+    specialize (Hc (index_of al order) (index_of a order) (index_of ar order) 0%N).
+    rewrite !nth_index_of in Hc by assumption.
+    apply Hc; auto; try lia. now apply index_of_lt.
+  - intros Hab. split.
+    + apply Hlle. now apply in_map.
+    + apply Hrle. now apply in_map.
+Qed.
+
+Lemma de_voter_correct order b a :
+  incl b order -> In a order -> contig01 (map (fun x => mem x b) order) = true ->
+  within (inject_Z (alt_pos order a)) (fst (de_voter order b)) (snd (de_voter order b)) = mem a b.
+Proof.
+  intros Hincl Ha Hc. destruct b as [|a0 [|a1 rest]].
+  - (* empty ballot: position -1, radius 0 *)
+    simpl. destruct (within _ _ _) eqn:E; [|reflexivity]. apply within_zero in E.
+    unfold alt_pos in E. lia.
+  - (* singleton *)
+    cbn [de_voter fst snd]. destruct (within _ _ _) eqn:E.
+    + apply within_zero in E. unfold alt_pos in E. apply Nat2Z.inj in E.
+      apply index_of_inj in E; auto; [|apply Hincl; now left]. subst. symmetry. apply mem_iff. now left.
+    + symmetry. apply mem_false_iff. intros [->|[]]. 
+      assert (E' : within (inject_Z (alt_pos order a)) (inject_Z (alt_pos order a)) (inject_Z 0) = true)
+        by now apply within_zero.
+      congruence.
+  - cbn [de_voter fst snd].
+    pose proof (span_iff order (a0 :: a1 :: rest) a0 (a1 :: rest) a eq_refl Hincl Ha Hc) as Hs.
+    destruct (within _ _ _) eqn:E.
+    + apply within_half in E. symmetry. apply mem_iff. now apply Hs.
+    + symmetry. apply mem_false_iff. intros Hab. apply Hs in Hab. apply within_half in Hab. congruence.
+Qed.
+
+Lemma lookupQ_map (f : N -> Q) order a :
+  In a order -> lookupQ a (map (fun x => (x, f x)) order) = Some (f a).
+Proof.
+  induction order as [|y t IH]; simpl; [tauto|]. intros H.
+  destruct (N.eqb_spec a y) as [->|Hne]; [reflexivity|]. destruct H as [H|H]; [congruence|now apply IH].
+Qed.
+
+Lemma forallb_combine_map {X Y} (g : X * Y -> bool) (f : X -> Y) l :
+  forallb g (combine l (map f l)) = forallb (fun x => g (x, f x)) l.
+Proof. induction l as [|x t IH]; simpl; [reflexivity|]. now rewrite IH. Qed.
+
+(* the code's construction is accepted by the Euclidean checker whenever the candidate order is accepted by
+   the CI checker (ballots only mention alternatives of the instance) *)
+Theorem de_construct_accepted alts ballots order :
+  Forall (fun b => incl b alts) ballots ->
+  ci_check alts ballots order = true ->
+  de_check alts ballots (fst (de_construct ballots order)) (snd (de_construct ballots order)) = true.
+Proof.
+  intros Hwf Hci. unfold ci_check in Hci. apply andb_true_iff in Hci. destruct Hci as [HP Hc].
+  apply perm_of_correct in HP. rewrite forallb_forall in Hc. rewrite Forall_forall in Hwf.
+  unfold de_construct, de_check. cbn [fst snd]. rewrite map_length, Nat.eqb_refl. cbn [andb].
+  rewrite forallb_combine_map. apply forallb_forall. intros b Hb. apply forallb_forall. intros a Ha.
+  cbn [fst snd].
+  assert (Ha' : In a order) by (eapply Permutation_in; eassumption).
+  rewrite (lookupQ_map (fun x => inject_Z (alt_pos order x)) order a Ha').
+  rewrite de_voter_correct; auto.
+  - apply eqb_reflx.
+  - intros x Hx. eapply Permutation_in; [exact HP|]. now apply (Hwf b Hb).
+Qed.
+
+(* CI => dichotomous Euclidean, with the code's construction as the witness *)
+Theorem ci_implies_de alts ballots :
+  Forall (fun b => incl b alts) ballots -> CI alts ballots -> DE alts ballots.
+Proof.
+  intros Hwf (order & H). apply ci_check_correct in H.
+  eapply de_check_sound. apply (de_construct_accepted alts ballots order Hwf H).
+Qed.
